@@ -12,6 +12,7 @@ status code itself is observed.  Offline assertions over the log:
 """
 import json, math, random
 from vf import core, gen
+from vf.num import gt, nmax as max, nmin as min
 
 PROPERTY = "C08"
 EPS = 2.0 ** -52
@@ -120,7 +121,7 @@ def run_case(case):
                     if abs(span / abs(dt0) - round(span / abs(dt0))) > 1e-6 and nsteps != want_n:
                         add('integrate:step-count:consecutive-calls', '%s: call %d over %.6g dt took %d steps (expected %d)' % (integ, j, span / abs(dt0), nsteps, want_n))
                         break
-                    if abs(sim.t - tgt) > 1e-12 * max(abs(tgt), 1e-200):
+                    if gt(abs(sim.t - tgt), 1e-12 * max(abs(tgt), 1e-200)):
                         add('integrate:exact-finish-misses-target', '%s sequence call %d: ended at %r target %r' % (integ, j, sim.t, tgt))
                         break
                     t_cur = sim.t
@@ -193,7 +194,7 @@ def run_case(case):
             scale = max(abs(tmax), 1e-200)
             if exact:
                 tscale = 1e-12 * abs(tmax) if 1e-12 * abs(tmax) >= 1e-200 else 1e-12
-                if abs(t_end - tmax) > tscale:
+                if gt(abs(t_end - tmax), tscale):
                     add('integrate:exact-finish-misses-target', '%s: ended at %r (|diff|=%.3e)' % (info, t_end, abs(t_end - tmax)))
             else:
                 over = (t_end - tmax) * direction
@@ -239,7 +240,7 @@ def run_case(case):
                 acc = t0
                 for i in range(1, len(ts)):
                     acc += math.copysign(abs(dt0), direction)
-                    if abs(ts[i] - acc) > 2 * i * EPS * max(abs(ts[i]), abs(t0)):     # t advances in two half steps in some schemes: a few ulp per step
+                    if gt(abs(ts[i] - acc), 2 * i * EPS * max(abs(ts[i]), abs(t0))):     # t advances in two half steps in some schemes: a few ulp per step
                         add('integrate:boundary-times-not-t0+i*dt', '%s: boundary %d at %r, expected %r' % (info, i, ts[i], acc))
                         break
                 if any(e[2] != math.copysign(abs(dt0), direction) for e in log[1:]):
@@ -377,7 +378,7 @@ def run_case(case):
             elif which == 'no_particles':
                 if st != 2:
                     add('status:no-particles-wrong-code', '%s: status %d' % (info, st))
-                if len(log) > 1:
+                if gt(len(log), 1):
                     add('status:no-particles-takes-steps', '%s: %d boundaries' % (info, len(log)))
             elif which == 'collision':
                 # harness evaluates overlap on the logged final state only if halted
